@@ -14,7 +14,9 @@ static Plan gen_typed(uint64_t seed, int tier, char const* prof)
   Plan p;
   p.profile = prof;
   p.seed = seed;
-  int fo = r.pick<int>({0, 0, 1, 1, 2});
+  bool c11_profile = std::string(prof) == "C11";
+  // C04 also runs on dropping queues: a dropped statement must not disturb the encoding of the next one
+  int fo = c11_profile ? r.pick<int>({0, 0, 1, 1, 2}) : r.pick<int>({0, 0, 1, 1, 2, 3, 6, 7});
   p.cfg["fo"] = fo;
   gen_sched(p, r);
   gen_backend(p, r);
@@ -69,6 +71,7 @@ Plan gen_c11(uint64_t seed, int tier) { return gen_typed(seed, tier, "C11"); }
 
 static Verdict delivery_part(Plan const& p, History const& h, RunInfoLite const& ri, Model& m, Verdict& v)
 {
+  bool const dropping = fo_info(static_cast<int>(p.get("fo", 0))).dropping;
   if (ri.stuck || !ri.completed)
   {
     v.kind = Verdict::INCONCLUSIVE;
@@ -78,13 +81,19 @@ static Verdict delivery_part(Plan const& p, History const& h, RunInfoLite const&
   }
   m = Model::build(p, h);
   DeliveryRules rules;
-  rules.expect = [&m](Issued const& is, int sink) -> int
+  rules.expect = [&m, dropping](Issued const& is, int sink) -> int
   {
     if (is.result != 1)
     {
       return 0;
     }
-    return ((m.mask_of_logger_at(is.logger, is.invoke_seq) >> sink) & 1) ? 1 : 0;
+    if (!((m.mask_of_logger_at(is.logger, is.invoke_seq) >> sink) & 1))
+    {
+      return 0;
+    }
+    // the real macros do not return whether a dropping queue accepted the statement: it may be missing, but if it
+    // is delivered it must be intact and in order
+    return (dropping && is.kind == 3) ? -1 : 1;
   };
   return check_delivery(m, rules);
 }
